@@ -248,6 +248,23 @@ impl<S: BuildHasher> IndexMap<S> {
 	}
 }
 
+/// Verification hook: read-only dump of the index buckets
+/// (representative, other indexes), in table order.
+#[cfg(json_syntax_verif)]
+impl<S> IndexMap<S> {
+	pub fn verif_dump(&self) -> Vec<(usize, Vec<usize>)> {
+		unsafe {
+			self.table
+				.iter()
+				.map(|bucket| {
+					let indexes = bucket.as_ref();
+					(indexes.rep, indexes.other.clone())
+				})
+				.collect()
+		}
+	}
+}
+
 #[cfg(test)]
 mod tests {
 	use super::*;
